@@ -55,8 +55,11 @@ def bounded(tier, seed):
             signal.alarm(0)
     # degenerate documents: well-formed output on every option set
     for doc in ("---", "---\ntitle: never closed\nkey: value", "---\n", "\n\n---\nk: v", "---\n---", "---\na: b\n---", "x", "#", ">", "|", "```", "[^a]:",
-                "- [ ]", "1.", "<!--", "{%", "\\", "***", "  ", "\t", "\r", "a\r\nb", "", "\n\n", "\r\n", "\x0c", "\u00a0", "\u2028"):
-        for o in (dict(width=88), dict(width=0, semantic=True), dict(width=1, smartquotes=True, ellipses=True, cleanups=True), dict(width=-5)):
+                "- [ ]", "1.", "<!--", "{%", "\\", "***", "  ", "\t", "\r", "a\r\nb", "", "\n\n", "\r\n", "\x0c", "\u00a0", "\u2028",
+                "a\\\n\\\nb", "\\\nfoo", "a  \n  \nb", "- x\\\n  \\\n  y", "> a\\\n> \\\n> b", "| a |\n|---|", "| a | b |\n|---|---|\n| 1 |", "[^f]:", "#", "# #", "```\n```",
+                "~~~", "1. \n2. ", "* [ ] ", "<b>", "a\u2003b", "{% t %}", "{% t", "<!-- x", "![", "[x](", "**", "`"):
+        for o in (dict(width=88), dict(width=0, semantic=True), dict(width=1, smartquotes=True, ellipses=True, cleanups=True), dict(width=-5),
+                  dict(width=30, semantic=True), dict(width=5, semantic=True, smartquotes=True)):
             try:
                 out = P.fmt(doc, **o)
                 evals += 1
@@ -101,7 +104,7 @@ def bounded(tier, seed):
             "samples": [{"soup": "".join(rnd.choice(SOUP) for _ in range(20))}],
             "rule": "seeded Unicode soup (unbalanced delimiters, control characters, CR/LF mixes, NUL, U+2028, look-alikes of the internal placeholder tokens) of length 3-120 x "
                     "seeded option sets incl. widths -1/0/1/88/10^6 under a 10 s watchdog: returns, ends in a newline (Markdown "
-                    "mode), introduces no NUL; 28 degenerate documents (incl. empty and whitespace-only ones) (unclosed / empty frontmatter, lone delimiters) x 4 option sets likewise; code-block blank lines carry no trailing spaces; thorough: pumped families with a "
+                    "mode), introduces no NUL; 52 degenerate documents (empty and whitespace-only ones, consecutive hard breaks, ragged tables, lone delimiters) (unclosed / empty frontmatter, lone delimiters) x 6 option sets likewise; code-block blank lines carry no trailing spaces; thorough: pumped families with a "
                     "fitted growth exponent; distinct = distinct outputs",
             "exhaustive": False, "bound": "%d strings" % n}
 
